@@ -2,6 +2,7 @@
 C09 (SVG and TikZ draw the same picture), C11 (export succeeds on every documented input)."""
 import json, sys, unicodedata
 from fractions import Fraction
+import common
 from common import Report, build_and_audit, drive, fields, rng_for, leanchecker, REPO, fr, time_limit
 import timeline_gen as TG
 from parse_export import parse_svg, parse_tikz
@@ -200,7 +201,7 @@ PROP_FIELDS = {
 
 def body(pid, tier, seed, rep, only_prop=False, scale=1):
     rng = rng_for(seed, "render")
-    n = (600 if tier == "quick" else 6000) * scale
+    n = common.count(tier, 600, 6000) * scale
     want = {"C07": ("geom", "scale", "layout", "size"), "C08": ("geom", "layout"), "C09": ("pic", "geom")}[pid]
     lines, metas = [], []
     for _ in range(n):
@@ -238,7 +239,7 @@ def body(pid, tier, seed, rep, only_prop=False, scale=1):
 
 def body_c11(tier, seed, rep, only_prop=False, scale=1):
     rng = rng_for(seed, "c11")
-    n = (1500 if tier == "quick" else 15000) * scale
+    n = common.count(tier, 1500, 15000) * scale
     lines, metas = [], []
     for k in range(n):
         spec = TG.gen_spec(rng, tier, for_crash=True)
@@ -264,7 +265,7 @@ def body_c11(tier, seed, rep, only_prop=False, scale=1):
         if degenerate:
             rep.count("degenerate-domain")
     # large inputs of the claim: up to 1000 labels with a conflict cluster of up to 200 labels
-    for k in range(1 if tier == "quick" else 8):
+    for k in range(common.count(tier, 1, 8)):
         nlab = 300 if tier == "quick" else rng.choice([400, 1000])
         cluster = rng.choice([150, 200])
         ts = [500 + rng.random() * 0.001 for _ in range(cluster)] + [rng.uniform(0, 1000) * 50 for _ in range(nlab - cluster)]
